@@ -480,6 +480,24 @@ class Case:
                        f"std::array<bspline::interpolation::Boundary<S>, {order - 1}> ba{{{('{' + barr + '}') if bs else ''}}}; "
                        f"auto r = {call}(req(s{x}), {yv}, ba); {self._set(d, 'std::move(r)')} printSystem(out);")
 
+    def interp_eigen(self, d, order, x, y, bs=None):
+        """interpolateUsingEigen<double, order> (floating-point tier only); the model line is the generic
+        interpolate with the exact solver, whose observation is the assembled system"""
+        self._decl(d, ('spl', order))
+        yv = f"std::vector<S>{{{', '.join(cq(v) for v in y)}}}"
+        if bs is None:
+            text = f"InterpDefault {d} {order} {x} {len(y)} {' '.join(fr(v) for v in y)}".rstrip()
+            call = f"bspline::interpolation::interpolateUsingEigen<S, {order}>(req(s{x}), {yv})"
+            pre = ""
+        else:
+            btxt = " ".join(f"{n} {dd} {fr(v)}" for (n, dd, v) in bs)
+            barr = ", ".join(f"bspline::interpolation::Boundary<S>{{bspline::interpolation::Node::{n}, {dd}, {cq(v)}}}" for (n, dd, v) in bs)
+            text = f"Interp {d} {order} {x} {len(y)} {' '.join(fr(v) for v in y)} {len(bs)} {btxt}".replace("  ", " ").rstrip()
+            pre = f"std::array<bspline::interpolation::Boundary<S>, {order - 1}> ba{{{('{' + barr + '}') if bs else ''}}}; "
+            call = f"bspline::interpolation::interpolateUsingEigen<S, {order}>(req(s{x}), {yv}, ba)"
+        self._emit(text, "\n#ifdef VERIF_EIGEN\n" + pre + f"auto r = {call}; out.spl(r);" + "\n#else\nout.tag(\"SKIP\");\n#endif\n")
+        self.meta.setdefault('eigen', []).append(len(self.lines))
+
     def show(self, a):
         if a in self.kind:
             self._emit(f"Show {a}", f"if (s{a}) out.show(*s{a}); else out.tag(\"NONE\");")
